@@ -1420,6 +1420,12 @@ Proof.
   - rewrite find_conn_app, Fn. unfold find_conn. cbn [find k_id new_conn]. now rewrite Nat.eqb_refl.
 Qed.
 
+Lemma find_cn_snoc kk l c : find_cn kk l = None -> n_k c = kk -> find_cn kk (l ++ [c]) = Some c.
+Proof.
+  unfold find_cn. intros Hn Hk. induction l as [|x l IH]; cbn [app find] in *; [now rewrite Hk, Nat.eqb_refl|].
+  destruct (Nat.eqb (n_k x) kk); [discriminate | apply IH; exact Hn].
+Qed.
+
 Lemma step_connect s k kk oid : R s k -> legal (t k) (OConnect kk oid) = true ->
   exists k', chk_op k (OConnect kk oid) (snd (step s (OConnect kk oid))) = Some k' /\ R (fst (step s (OConnect kk oid))) k'.
 Proof.
@@ -1432,9 +1438,7 @@ Proof.
   destruct (R_new_conn s k kk oid rf H Lk Lo) as (H1 & F1 & Hkc).
   destruct (find_conn_none_kids _ _ _ H Lk) as [Fn _].
   assert (Fcn : find_cn kk (cns k ++ [new_cn kk oid rf]) = Some (new_cn kk oid rf)).
-  { pose proof (find_cn_none _ _ _ H Fn) as Fnn. unfold find_cn in *.
-    induction (cns k) as [|x l IH]; cbn [app find] in *; [cbn [n_k new_cn]; now rewrite Nat.eqb_refl|].
-    destruct (Nat.eqb (n_k x) kk); [discriminate | apply IH; exact Fnn]. }
+  { apply find_cn_snoc; [exact (find_cn_none _ _ _ H Fn) | reflexivity]. }
   unfold op_connect. rewrite Fn. replace (negb (oid <? List.length (objs s))%nat) with false by (symmetry; apply negb_false_iff, Nat.ltb_lt; exact Lo).
   change {| k_id := kk; k_oid := oid; k_stage := KSetconf; k_att := None |} with (new_conn kk oid).
   set (s1 := with_conns s (conns s ++ [new_conn kk oid])) in *.
@@ -1604,7 +1608,7 @@ Proof.
     assert (Fc1 : forall c1, n_k c1 = kk -> find_cn kk (upd_cn c1 (cns k)) = Some c1).
     { intros c1 E. apply find_upd_same; [congruence | exact E]. }
     assert (Done : forall r c1, n_k c1 = kk -> n_oid c1 = n_oid n -> n_done c1 = false ->
-              (match r with ROk => both_ok c1 | RFail _ => negb (both_ok c1) end) = true ->
+              (match r with ROk => both_ok c1 | RFail kd => negb (both_ok c1) && fail_ok (t k) c1 kd end) = true ->
               forall must, musts_met must [(kk, r)] = true ->
               exists k', finish (t k) (regs k) (upd_cn c1 (cns k)) (expect k) (snd (conn_finish s kk r)) [] (exactly 0) none_raised must = Some k'
                          /\ R (fst (conn_finish s kk r)) k').
@@ -1624,9 +1628,9 @@ Proof.
            ++ cbn. congruence.
            ++ unfold both_ok. cbn. now rewrite Na.
            ++ unfold both_ok. cbn. rewrite Na. cbn. now rewrite Nat.eqb_refl.
-        -- apply (Done (RFail x) (cn_socks n true)); try reflexivity; try assumption.
+        -- cbn in Hat. subst x. apply (Done (RFail 1) (cn_socks n true)); try reflexivity; try assumption.
            ++ cbn. congruence.
-           ++ unfold both_ok. cbn. now rewrite Na.
+           ++ unfold both_ok, fail_ok. cbn. rewrite Na. cbn. apply orb_true_r.
            ++ unfold both_ok. cbn. now rewrite Na.
       * destruct (n_att n) as [[|]|] eqn:Na; try contradiction.
         eexists. split; [apply finish_intro; try reflexivity; unfold both_ok; cbn; rewrite Na; reflexivity|].
@@ -1637,7 +1641,7 @@ Proof.
         -- cbn [k_stage]. discriminate.
     + apply (Done (RFail 5) (cn_socks n false)); try reflexivity; try assumption.
       * cbn. congruence.
-      * unfold both_ok. cbn. destruct (n_att n) as [[|]|]; reflexivity.
+      * unfold both_ok, fail_ok. cbn. destruct (n_att n) as [[|]|]; reflexivity.
       * cbn. now rewrite Nat.eqb_refl.
   - destruct SF as (_ & _ & -> & _). rewrite andb_false_r. exact Quiet.
   - rewrite SF, andb_false_r. exact Quiet.
@@ -1892,8 +1896,10 @@ Proof.
   assert (Hnw : not_waiting s kk).
   { eapply not_waiting_of_stage; eauto. destruct Hst as [X|[X|X]]; congruence. }
   assert (Fc1 : find_cn kk (upd_cn c1 (cns k)) = Some c1) by (apply find_upd_same; [congruence | cbn; congruence]).
-  assert (Hfine : n_socks n = Some true -> (match r with ROk => both_ok c1 | RFail _ => negb (both_ok c1) end) = true).
-  { intros So. unfold both_ok, c1. cbn. rewrite So. destruct r, b; cbn in Hrb; try contradiction; reflexivity. }
+  assert (Hfine : n_socks n = Some true ->
+            (match r with ROk => both_ok c1 | RFail kd => negb (both_ok c1) && fail_ok (t k) c1 kd end) = true).
+  { intros So. unfold both_ok, fail_ok, c1. cbn. rewrite So. destruct r as [|x], b; cbn in Hrb; try contradiction; [reflexivity|].
+    subst x. cbn. apply orb_true_r. }
   unfold att_fire. rewrite F. destruct Hst as [St|[St|St]]; rewrite St in *.
   - (* KLocal: remembered for later *)
     destruct SF as (Hs & Hl & Hso & Hd & Hat).
@@ -1901,7 +1907,7 @@ Proof.
     { unfold both_ok, c1. cbn. rewrite Hso. destruct b; reflexivity. }
     split; [apply conn_only_nil|]. cbn [fst].
     eapply (R_put_conn s k kk cn n _ c1 H F Fn); try reflexivity; try assumption.
-    + unfold stage_flags, c1. cbn. repeat split; auto; congruence.
+    + unfold stage_flags, c1. cbn. repeat split; auto; try congruence; exact Hrb.
     + cbn [k_stage]. intros _. left. reflexivity.
     + cbn [k_stage]. discriminate.
   - (* KWaitAtt: connect() completes *)
@@ -1910,7 +1916,7 @@ Proof.
     { cbn [conn_finish snd]. rewrite (conn_event_done _ _ kk c1 r Fc1); [now rewrite upd_cn_twice by reflexivity | exact Hd | exact (Hfine Hso)]. }
     split.
     { cbn [conn_finish snd dones map List.concat app]. destruct (both_ok c1 && negb (n_done c1)) eqn:Q; [|reflexivity].
-      apply andb_true_iff in Q as [Q _]. specialize (Hfine Hso). destruct r; [|rewrite Q in Hfine; discriminate].
+      apply andb_true_iff in Q as [Q _]. specialize (Hfine Hso). destruct r; [|rewrite Q in Hfine; discriminate Hfine].
       cbn. now rewrite Nat.eqb_refl. }
     split; [apply conn_finish_only|]. cbn [conn_finish fst]. rewrite (set_stage_eq _ _ _ _ F).
     eapply (R_put_conn s k kk cn n _ (cn_done c1) H F Fn); try reflexivity; try assumption.
@@ -2052,7 +2058,7 @@ Proof.
     assert (T : c_terminal (c_st c) = true).
     { destruct (R_fired_st _ _ H _ _ E Fc) as [X|X]; [rewrite X in B; discriminate | exact X]. }
     rewrite T.
-    destruct (att_fire_R s1' _ (r_k r) cn n (RFail 1) false Hd F' Hst Fn SF I) as (cs2 & CE & M & (W & A & Rp & Ra) & HR).
+    destruct (att_fire_R s1' _ (r_k r) cn n (RFail 1) false Hd F' Hst Fn SF eq_refl) as (cs2 & CE & M & (W & A & Rp & Ra) & HR).
     cbn [t regs cns expect] in *.
     unfold then_. destruct (att_fire s1' (r_k r) (RFail 1)) as [s2 e2]. cbn [fst snd issue] in *. rewrite app_nil_r.
     eexists. split; [|exact HR].
